@@ -50,6 +50,12 @@ type ReplayFile struct {
 	Trace           []string `json:"trace,omitempty"`
 	Repo            string   `json:"repo,omitempty"`
 	Known           bool     `json:"known_finding,omitempty"`
+	// Flaky: the code under test itself behaves nondeterministically for this
+	// tape (typically Go map iteration order deciding a tie); the violation
+	// reproduced Reproduced times out of Attempts re-executions.
+	Flaky      bool `json:"flaky,omitempty"`
+	Reproduced int  `json:"reproduced,omitempty"`
+	Attempts   int  `json:"attempts,omitempty"`
 }
 
 type knownEntry struct {
@@ -184,9 +190,23 @@ type shrinker struct {
 	max    int
 	t0     time.Time
 	budget time.Duration
+	tries  int // executions per candidate (more than one only for flaky violations)
 }
 
 func (s *shrinker) test(vals []uint32) ([]uint32, bool) {
+	n := s.tries
+	if n < 1 {
+		n = 1
+	}
+	for k := 0; k < n; k++ {
+		if nv, ok := s.testOnce(vals); ok {
+			return nv, true
+		}
+	}
+	return nil, false
+}
+
+func (s *shrinker) testOnce(vals []uint32) ([]uint32, bool) {
 	if s.tried >= s.max || time.Since(s.t0) > s.budget {
 		return nil, false
 	}
@@ -433,6 +453,7 @@ func Main(t *testing.T, engines map[string]*Engine) {
 		os.Exit(0)
 	}
 
+	nondet := ""
 	t0 := time.Now()
 	fps := map[uint64]struct{}{}
 	var sampleRuns []uint64
@@ -473,10 +494,14 @@ func Main(t *testing.T, engines map[string]*Engine) {
 			}
 			out.Rechecked++
 			if c2.hash != c.hash {
-				out.Error = fmt.Sprintf("NONDETERMINISM: run %d of seed %d gives log hash %x then %x on replay of its own tape", run, seed, c.hash, c2.hash)
-				fmt.Fprintf(os.Stderr, "verif: %s\n", out.Error)
-				dumpDivergence(t, e, prop, tier, seed, run, c.Tape.Used)
-				finish(2)
+				// keep exploring: if the tree under test is itself nondeterministic
+				// (and broken) a violation will say so; without one this is exit 2
+				if nondet == "" {
+					nondet = fmt.Sprintf("NONDETERMINISM: run %d of seed %d gives log hash %x then %x on replay of its own tape", run, seed, c.hash, c2.hash)
+					fmt.Fprintf(os.Stderr, "verif: %s\n", nondet)
+					dumpDivergence(t, e, prop, tier, seed, run, c.Tape.Used)
+				}
+				out.Stats["nondeterministic-rechecks"]++
 			}
 		}
 		if len(c.Violations) == 0 {
@@ -550,6 +575,10 @@ func Main(t *testing.T, engines map[string]*Engine) {
 	if len(out.Violations) > 0 {
 		finish(1)
 	}
+	if nondet != "" {
+		out.Error = nondet
+		finish(2)
+	}
 	finish(0)
 }
 
@@ -557,25 +586,53 @@ func Main(t *testing.T, engines map[string]*Engine) {
 // twice in verbose mode; nil if it does not reproduce identically.
 func buildReplay(t *testing.T, e *Engine, prop, tier string, seed, run uint64, class string, tape []uint32, maxCand int, budget time.Duration) *ReplayFile {
 	s := &shrinker{t: t, e: e, prop: prop, tier: tier, seed: seed, run: run, class: class, max: maxCand, t0: time.Now(), budget: budget}
-	// the unshrunk tape must reproduce first
-	if _, ok := s.test(tape); !ok {
+	// the unshrunk tape must reproduce first; if it only does so sometimes
+	// the code under test is itself nondeterministic for this tape (a mutated
+	// tree whose outcome hangs on map iteration order): keep going with
+	// several executions per candidate and say so in the replay file
+	flaky := false
+	ok := false
+	for k := 0; k < 8 && !ok; k++ {
+		_, ok = s.testOnce(tape)
+		if !ok {
+			flaky = true
+		}
+	}
+	if !ok {
 		return nil
+	}
+	if flaky {
+		s.tries = 4
 	}
 	min := s.shrink(tape)
 	var first *Ctx
-	for k := 0; k < 2; k++ {
+	attempts, reproduced := 0, 0
+	sameHash := true
+	for k := 0; k < 12; k++ {
 		c := newCtx(prop, tier, seed, run, newReplayTape(min), true)
 		if err := execute(t, e, c); err != nil {
 			return nil
 		}
+		attempts++
 		if hasClass(c.Violations, class) == nil {
-			return nil
+			flaky = true
+			continue
 		}
+		reproduced++
 		if first == nil {
 			first = c
 		} else if first.hash != c.hash {
-			return nil
+			sameHash = false
 		}
+		if !flaky && reproduced == 2 {
+			break
+		}
+	}
+	if first == nil {
+		return nil
+	}
+	if !flaky && !sameHash {
+		return nil // same verdict, different event logs: the harness is to blame
 	}
 	v := hasClass(first.Violations, class)
 	tr := first.Trace
@@ -584,7 +641,8 @@ func buildReplay(t *testing.T, e *Engine, prop, tier string, seed, run uint64, c
 	}
 	return &ReplayFile{Property: prop, Engine: e.Name, Tier: tier, Seed: seed, Run: run, Class: class, Message: v.Msg,
 		Tape: trimZeros(first.Tape.Used), LogHash: fmt.Sprintf("%016x", first.hash), OriginalTapeLen: len(tape),
-		ShrinkTried: s.tried, Choices: first.Tape.Labels, Trace: tr, Repo: os.Getenv("VERIF_REPO_DESCRIBE")}
+		ShrinkTried: s.tried, Choices: first.Tape.Labels, Trace: tr, Repo: os.Getenv("VERIF_REPO_DESCRIBE"),
+		Flaky: flaky, Reproduced: reproduced, Attempts: attempts}
 }
 
 func dumpDivergence(t *testing.T, e *Engine, prop, tier string, seed, run uint64, tape []uint32) {
@@ -624,11 +682,21 @@ func replayMain(t *testing.T, e *Engine, path string, out *WorkerOut, finish fun
 		fmt.Fprintf(os.Stderr, "verif: %v\n", err)
 		finish(2)
 	}
-	c := newCtx(rf.Property, rf.Tier, rf.Seed, rf.Run, newReplayTape(rf.Tape), true)
-	if err := execute(t, e, c); err != nil {
-		out.Error = err.Error()
-		fmt.Fprintf(os.Stderr, "verif: %v\n", err)
-		finish(2)
+	var c *Ctx
+	tries := 1
+	if rf.Flaky {
+		tries = 30
+	}
+	for k := 0; k < tries; k++ {
+		c = newCtx(rf.Property, rf.Tier, rf.Seed, rf.Run, newReplayTape(rf.Tape), true)
+		if err := execute(t, e, c); err != nil {
+			out.Error = err.Error()
+			fmt.Fprintf(os.Stderr, "verif: %v\n", err)
+			finish(2)
+		}
+		if hasClass(c.Violations, rf.Class) != nil {
+			break
+		}
 	}
 	out.Runs = 1
 	if os.Getenv("VERIF_TRACE") != "" {
